@@ -338,6 +338,11 @@ def _guarded_sub(b, bb, a, c):
             return "dominated by %s %s %s" % (sc[:40], o, sa[:40])
         if _const(c) is not None and sl == sa and _const(R) is not None and ((o == "Gt" and _const(R) >= _const(c) - 1) or (o == "Ge" and _const(R) >= _const(c))):
             return "dominated by %s %s %d" % (sa[:40], o, _const(R))
+        # unsigned a − 1 after `a != 0` (either operand order)
+        if _const(c) == 1 and o == "Ne" and ((sl == sa and _const(R) == 0) or (sr == sa and _const(L) == 0)):
+            return "dominated by %s != 0" % sa[:40]
+        if _const(c) is not None and sr == sa and _const(L) is not None and ((o == "Lt" and _const(L) >= _const(c) - 1) or (o == "Le" and _const(L) >= _const(c))):
+            return "dominated by %d %s %s" % (_const(L), o, sa[:40])
     return None
 
 
